@@ -79,6 +79,9 @@ Definition prior_ok (f0 : fs) (cfg : config) : Prop :=
   c_path cfg <> [] /\
   (* no file where a directory is needed on the way to the dataset / the temp parent *)
   (forall q, on_the_way q (parent (c_path cfg)) = true -> isfile_b f0 q = false) /\
+  (* the tree is a tree at the dataset path: nothing below a path that does not exist *)
+  (node_at f0 (c_path cfg) = None ->
+   forall q, is_prefix (c_path cfg) q = true -> node_at f0 q = None) /\
   match c_tmp cfg with
   | TInside => True
   | TExternal t =>
